@@ -1076,7 +1076,7 @@ fn main() {
         }
     } else {
         let mut rng = Rng::new(args.seed ^ 0xC03);
-        let n = n_cases(&args, 6000, 150000);
+        let n = n_cases(&args, 12000, 200000);
         for _ in 0..n {
             let (line, tags) = gen_case(&mut rng);
             let before = INVALID_RESULTS.load(std::sync::atomic::Ordering::Relaxed);
